@@ -1387,19 +1387,19 @@ fn has_return_or_try(b: &syn::Block) -> (bool, bool) {
     let mut f = F(false, false); f.visit_block(b); (f.0, f.1)
 }
 pub fn inline_new_helpers(block: &mut syn::Block, helpers: &std::collections::BTreeMap<String, Helper>, cx: &mut Ctx) {
-    if helpers.is_empty() { return; }
+    if helpers.is_empty() && !block.stmts.iter().any(|st| matches!(st, Stmt::Item(syn::Item::Fn(_)))) { return; }
     // which helper does this expression call (directly; `.await`ed for an async one)?
     fn callee<'a>(e: &Expr, helpers: &'a std::collections::BTreeMap<String, Helper>) -> Option<(&'a Helper, Vec<Expr>)> {
         let (inner, awaited) = match e { Expr::Await(a) => (&*a.base, true), other => (other, false) };
         let (h, args) = match inner {
             Expr::MethodCall(m) if matches!(&*m.receiver, Expr::Path(p) if p.path.is_ident("self")) => {
-                let h = helpers.get(&m.method.to_string())?; if !h.receiver || m.turbofish.is_some() { return None; }
+                let h = helpers.get(&m.method.to_string())?; if !h.receiver { return None; }
                 (h, m.args.iter().cloned().collect::<Vec<_>>())
             }
             Expr::Call(c) => {
                 let Expr::Path(p) = &*c.func else { return None; };
                 let segs: Vec<String> = p.path.segments.iter().map(|s| s.ident.to_string()).collect();
-                if p.path.segments.iter().any(|s| !s.arguments.is_empty()) { return None; }
+                if p.path.segments.iter().rev().skip(1).any(|s| !s.arguments.is_empty()) { return None; }   // (a turbofish on the function itself is left to inference)
                 let name = match segs.as_slice() { [n] => n.clone(), [q, n] if q == "Self" => n.clone(), _ => return None };
                 let h = helpers.get(&name)?; if h.receiver { return None; }
                 (h, c.args.iter().cloned().collect::<Vec<_>>())
@@ -1439,12 +1439,23 @@ pub fn inline_new_helpers(block: &mut syn::Block, helpers: &std::collections::BT
         }
     }
     let mut fired = 0usize;
-    // the tail expression of the function: a `?` inside the helper is allowed here
-    if let Some(Stmt::Expr(te, None)) = block.stmts.last_mut() {
-        if let Some((h, args)) = callee(te, helpers) {
-            let (ret, _) = has_return_or_try(&h.block);
-            if !ret { *te = build(h, args); fired += 1; }
-        }
+    // functions declared inside the body are helpers of this function only
+    let mut local: std::collections::BTreeMap<String, Helper> = Default::default();
+    block.stmts.retain(|st| if let Stmt::Item(syn::Item::Fn(f)) = st {
+        local.insert(f.sig.ident.to_string(), Helper { sig: f.sig.clone(), block: (*f.block).clone(), receiver: false }); false } else { true });
+    let merged: std::collections::BTreeMap<String, Helper>;
+    let helpers = if local.is_empty() { helpers } else {
+        let mut m: std::collections::BTreeMap<String, Helper> = Default::default();
+        for (k, h) in helpers.iter() { m.insert(k.clone(), Helper { sig: h.sig.clone(), block: h.block.clone(), receiver: h.receiver }); }
+        for (k, h) in local { m.insert(k, h); }
+        merged = m; &merged };
+    // the tail of the function (its last expression, the operand of a final `return`, or a last statement `f(..);` of a helper without a
+    // result): leaving the helper early with `return` or `?` is leaving the caller with the same value
+    match block.stmts.last_mut() {
+        Some(Stmt::Expr(Expr::Return(r), _)) => { if let Some(te) = r.expr.as_mut() { if let Some((h, args)) = callee(te, helpers) { **te = build(h, args); fired += 1; } } }
+        Some(Stmt::Expr(te, None)) => { if let Some((h, args)) = callee(te, helpers) { *te = build(h, args); fired += 1; } }
+        Some(Stmt::Expr(te, Some(_))) => { if let Some((h, args)) = callee(te, helpers) { if matches!(h.sig.output, syn::ReturnType::Default) { *te = build(h, args); fired += 1; } } }
+        _ => {}
     }
     let mut v = V { helpers, fired: 0, depth: 0 };
     v.visit_block_mut(block);
